@@ -1,6 +1,7 @@
 """Glue on a property's path that no model restates line by line (harness/frozen_glue.json, written by tools/mk_frozen.py): for the
 files the checked property is anchored in, the recorded functions must still have the recorded source, every function its
-recorded decorators and signature, and the module- and class-level statements their recorded text (fail closed)."""
+recorded decorators and signature, and the module- and class-level statements their recorded text (fail closed).  Since round 9 the
+whole package is compared for every property (not only the files the property is anchored in)."""
 import json, os, sys
 from py2coq import Refuse
 HERE = os.path.dirname(os.path.abspath(__file__))
@@ -9,11 +10,17 @@ sys.path.insert(0, os.path.join(os.path.dirname(HERE), 'tools'))
 def generate_for(repo, pid):
     import mk_frozen
     rec = json.load(open(os.path.join(HERE, 'frozen_glue.json')))
+    import re
+    m = re.search(r"GENMODS\s*=\s*\[(.*?)\]", open(os.path.join(HERE, 'p_%s.py' % pid.lower())).read(), flags=re.S)
+    mine = set(re.findall(r"'(\w+)'", m.group(1))) if m else set()
     for f in sorted(rec['functions']):
-        if pid not in rec['anchored_in'].get(f, []): continue
+        # every source file of the package, for every property: a model read by potable runs through the parser, the builders, the
+        # registries and the writers whatever the property is anchored in (round 9: four seeds changed a file anchored in *another*
+        # property and went unnoticed by the check of the property they broke)
         try: fns, heads, stmts = mk_frozen.snapshot(repo, f)
         except (OSError, SyntaxError) as e: raise Refuse('cannot parse %s: %s' % (f, e))
         for q, src in sorted(rec['functions'][f].items()):
+            if mine & set(rec['read_by'][f].get(q, [])): continue        # read (translated / asserted) by this property's own generators
             if q not in fns: raise Refuse('%s:%s no longer exists (frozen glue)' % (f, q))
             if fns[q] != src: raise Refuse('%s:%s differs from the recorded source (frozen glue):\n%s' % (f, q, fns[q][:600]))
         for q, h in sorted(rec['headers'][f].items()):
